@@ -113,7 +113,8 @@ class Machine:
     # ---- helpers ------------------------------------------------------------------------------
     async def new_node(self):
         self.node = Node(self.db_dir, self.world, self.coin, self.limit, chooser=self.chooser,
-                         flush_plan=self.flush_plan, max_latency=2)
+                         flush_plan=self.flush_plan, max_latency=2,
+                         real_daemon=self.case.get('real_daemon') or 0)
         self.node.daemon.on_call = self.on_daemon_call
         self.prepare_node()
         self.node.start()
